@@ -1,7 +1,7 @@
 """Per-property check definitions: which model families are run and how their findings are attributed."""
 import json, os
 from . import common
-from .cgt import cgt_family, law_family, combine, fam_list
+from .cgt import cgt_family, law_family, report_family, calendar_family, combine, fam_list
 
 
 def c01(tier, seed):
@@ -63,6 +63,28 @@ def c12(tier, seed):
                    'the same of two implementation runs; non-trivial = accepted prefixes with at least one disposal')
 
 
+def reports(tier, quick, thorough):
+    return [report_family(n) for n in (quick if tier == 'quick' else quick + thorough)]
+
+
+def c04(tier, seed):
+    return combine(reports(tier, ['report_q', 'report_missing_q'], ['report_t', 'report_one_t']), ['reports', 'missing_exemption_refused'],
+                   'two-security cell ledgers placed on real dates around 5/6 April with cash dividends and a small exemption '
+                   'table (one family leaves a needed year unconfigured); TLC checks the report identities on the '
+                   'specification and prints the per-year totals; the implementation\'s TaxReport must show the same '
+                   'totals and satisfy the identities on its own figures; non-trivial = reports produced + runs refused '
+                   'for a missing exemption',
+                   assumptions=['override-file layering (./config.toml, ~/.config) is exercised through the CLI by the C15/cli families'])
+
+
+def c07(tier, seed):
+    return combine([calendar_family()] + reports(tier, ['report_q'], ['report_t', 'report_one_t']), ['boundary_dates', 'slices'],
+                   'every date 1899-12-31..2101-12-31 (exhaustive, one TLC state each) through TaxPeriod::from_date, the '
+                   'all-years grouping and the single-year filter for the years Y-1, Y, Y+1; plus, for every report-family '
+                   'ledger, calculate(Some(Y)) against the Y entry of calculate(None); non-trivial = 5/6 April and leap-day '
+                   'dates + slices compared')
+
+
 def c11(tier, seed):
     return combine(fam_list(tier, ['events_q'], ['events_t', 'events_split_t']), 'with_events',
                    'cell ledgers with a capital return / accumulation cell at every position; TLC judges the observed '
@@ -71,7 +93,7 @@ def c11(tier, seed):
                    'non-trivial = ledgers with a cost event')
 
 
-PROPS = {'C01': c01, 'C02': c02, 'C03': c03, 'C05': c05, 'C06': c06, 'C09': c09, 'C10': c10, 'C11': c11, 'C12': c12}
+PROPS = {'C04': c04, 'C07': c07, 'C01': c01, 'C02': c02, 'C03': c03, 'C05': c05, 'C06': c06, 'C09': c09, 'C10': c10, 'C11': c11, 'C12': c12}
 
 
 def replay(prop, path):
